@@ -25,7 +25,7 @@ Fail(e)  == [ok |-> FALSE, err |-> e]      \* e: exception class raised by the f
 ---------------------------------------------------------------------------
 (* field descriptors *)
 Common == [required |-> FALSE, default |-> NoneV, sensitive |-> FALSE, fname |-> "",
-           env |-> "inherit"]
+           env |-> "inherit", fval |-> "none"]      \* fval: custom field validator (catalogue name)
 
 StrOpts == [minlen |-> -1, maxlen |-> -1, regex |-> "none", choices |-> <<>>,
             tcase |-> "none", stripm |-> "none", stripcs |-> {}]
@@ -381,12 +381,20 @@ ClassValidate(f, v) ==
             ELSE IF f.keyf.kind = "nofield" /\ f.valf.kind = "nofield" THEN Ok(v)
             ELSE ValidatePairs(f, v.kv, <<>>)
 
+\* custom field validators (validator(field) / Field(validator=...)): a small catalogue; a
+\* validator receives the value the class accepted and may transform or reject it
+FieldVal(name, v) ==
+    CASE name = "v_even" -> IF v.t = "int" /\ v.i % 2 = 0 THEN Ok(v) ELSE Fail("ValueError")
+      [] name = "v_fail" -> Fail("ValueError")
+      [] name = "v_neg"  -> IF v.t = "int" THEN Ok(IntV(-v.i)) ELSE Ok(v)      \* transforms (not idempotent on purpose)
+
 \* Field.validate (core.py:443-461)
 Validate(f, v) ==
     IF f.kind = "nofield" THEN Ok(v)
     ELSE IF f.required /\ IsNone(v) THEN Fail("ValueError")
     ELSE IF IsNone(v) THEN Ok(v)
-    ELSE ClassValidate(f, v)
+    ELSE LET r == ClassValidate(f, v) IN
+         IF ~r.ok \/ f.fval = "none" THEN r ELSE FieldVal(f.fval, r.v)
 
 ---------------------------------------------------------------------------
 (* on-disk encoding.  `key` names the key file of the configuration that owns the field
